@@ -252,7 +252,14 @@ std::string sat_problem_as_wcnf_string(const DetectorErrorModel &model, bool wei
     // Add a hard clause for any observable to be flipped
     Clause clause;
     for (size_t i = 0; i < num_observables; ++i) {
+        if (observables_flipped[i].variable == BOOL_LITERAL_FALSE) {
+            // No error touches this observable. A constant false literal contributes nothing to the disjunction.
+            continue;
+        }
         clause.add_var(observables_flipped[i]);
+    }
+    if (clause.vars.empty()) {
+        return UNSAT_WCNF_STR;
     }
     instance.add_clause(clause);
 
